@@ -2,15 +2,22 @@
 use crate::fw::Monitor;
 
 pub mod alnspec;
+pub mod textgen;
 pub mod c01;
 pub mod c02;
+pub mod c03;
+pub mod c04;
+pub mod c05;
+pub mod c06;
 
 pub fn get(id: &str) -> Option<Box<dyn Monitor>> {
     match id {
         "C01" => Some(Box::new(c01::C01)),
         "C02" => Some(Box::new(c02::C02)),
+        "C03" => Some(Box::new(c03::C03)),
+        "C04" => Some(Box::new(c04::C04)),
+        "C05" => Some(Box::new(c05::C05)),
+        "C06" => Some(Box::new(c06::C06)),
         _ => None,
     }
 }
-
-pub const ALL: &[&str] = &["C01"];
